@@ -77,13 +77,13 @@ class CallMixin:
         return res
 
     def find_contract_text(self, text):
-        for c in self.spec.contracts:
+        for c in list(self.target.local_contracts) + self.spec.contracts:
             if not isinstance(c.key, tuple) and c.matches(text):
                 return c
         return None
 
     def find_contract_method(self, cls, meth):
-        for c in self.spec.contracts:
+        for c in list(self.target.local_contracts) + self.spec.contracts:
             if isinstance(c.key, tuple) and c.key == (cls, meth):
                 return c
         return None
@@ -801,6 +801,8 @@ class CallMixin:
                 return False
             if v.s == EXC:
                 return self.hier.is_sub(v.t, n)
+            if isinstance(v.s, Opaque) and n in self.spec.instances.get(v.s.oname, ()):
+                return True          # declared by the spec: values of this opaque sort are instances of that class
             return None
         rs = [one(n) for n in names]
         if any(r is None for r in rs):
